@@ -35,6 +35,18 @@ type Profile struct {
 	AuthSecret  bool
 	MultiTLS    bool // tls blocks may list hosts without a rule
 	Avoid       []avoidRule // input classes of known findings, excluded by construction
+	Bundles     []annBundle // coherent groups of annotations (a feature switched on as a whole)
+	BundlePct   int
+}
+
+// annBundle switches a feature on: every key gets one of its values; Path, if
+// set, is added as an extra path of the first rule (eg /oauth2); Root forces the
+// rules to the root path (tcp services).
+type annBundle struct {
+	Name string
+	Keys []annChoice
+	Path string
+	Root bool
 }
 
 // avoidRule describes an input class that a known (recorded, unrepaired) finding
@@ -280,6 +292,27 @@ func (g *G) genIngress(ns, name string, created int) *world.Obj {
 		}
 		if len(t.Hosts) > 0 {
 			o.TLS = append(o.TLS, t)
+		}
+	}
+	if len(g.P.Bundles) > 0 && g.chance("bundle", g.P.BundlePct) {
+		b := g.P.Bundles[g.intn("whichbundle", 0, len(g.P.Bundles)-1)]
+		if o.Ann == nil {
+			o.Ann = map[string]string{}
+		}
+		for _, k := range b.Keys {
+			o.Ann[k.Key] = g.pick("bundleval", k.Values)
+		}
+		if b.Path != "" {
+			p := g.genPath()
+			p.Path = b.Path
+			g.fixPort(ns, &p)
+			o.Rules[0].Paths = append(o.Rules[0].Paths, p)
+		}
+		if b.Root {
+			for i := range o.Rules {
+				o.Rules[i].Paths = o.Rules[i].Paths[:1]
+				o.Rules[i].Paths[0].Path = "/"
+			}
 		}
 	}
 	nann := 0
@@ -863,4 +896,85 @@ func genHistory(t *rapid.T, p Profile, params ctlsim.Params, kinds []string, max
 		c.Excluded = g.Excluded
 	}
 	return c
+}
+
+// ---------- feature-rich profile (C07, C18): every construct that creates a symbolic reference ----------
+
+func richProfile() Profile {
+	p := defaultProfile()
+	p.MissingRefs = true
+	p.GlobalCM = true
+	p.AuthSecret = true
+	p.Pods = true
+	p.GlobalKeys = []annChoice{
+		{"external-has-lua", []string{"true", "true", "false"}},
+		{"strict-host", []string{"true", "false"}},
+		{"auth-proxy", []string{"_front__auth:14415-14416", "_front__auth:14415-14415", "_front__auth:14415-14499"}},
+		{"drain-support", []string{"true", "false"}},
+	}
+	p.Ann = append(p.Ann,
+		annChoice{"auth-type", []string{"basic"}},
+		annChoice{"auth-secret", []string{"pw", "missing"}},
+		annChoice{"auth-url", []string{"http://10.0.0.9:8080/auth", "https://10.0.0.9/auth", "http://10.0.0.10/check", "svc://s2:8000", "svc://s1:80", "svc://s9:80", "svc://s2", "http://bad host/", "ftp://10.0.0.9/x", "http://localhost:9000/a"}},
+		annChoice{"auth-external-placement", []string{"frontend", "backend"}},
+		annChoice{"auth-signin", []string{"http://h1.local/signin"}},
+		annChoice{"oauth", []string{"oauth2_proxy", "unknown"}},
+		annChoice{"ssl-passthrough", []string{"true"}},
+		annChoice{"ssl-passthrough-http-port", []string{"80", "8000"}},
+		annChoice{"blue-green-deploy", []string{"group=blue=1,group=green=3"}},
+		annChoice{"blue-green-header", []string{"X-Server:group"}},
+		annChoice{"assign-backend-server-id", []string{"true"}},
+		annChoice{"backend-server-naming", []string{"sequence", "ip", "pod"}},
+		annChoice{"affinity", []string{"cookie"}},
+		annChoice{"server-alias", []string{"alias.local"}},
+		annChoice{"redirect-from", []string{"old.local"}},
+		annChoice{"tcp-service-port", []string{"7000", "7001"}},
+		annChoice{"auth-tls-secret", []string{"ca1", "missing"}},
+	)
+	p.Paths = append(append([]string{}, basePaths...), "/oauth2")
+	authURLs := []string{"http://10.0.0.9:8080/auth", "https://10.0.0.9/auth", "http://10.0.0.10/check", "svc://s2:8000", "svc://s1:80", "svc://s9:80", "svc://s2", "http://bad host/", "ftp://10.0.0.9/x"}
+	p.Bundles = []annBundle{
+		{Name: "basic-auth", Keys: []annChoice{{"auth-type", []string{"basic"}}, {"auth-secret", []string{"pw", "pw", "missing"}}}},
+		{Name: "auth-url-backend", Keys: []annChoice{{"auth-url", authURLs}, {"auth-external-placement", []string{"backend"}}}},
+		{Name: "auth-url-frontend", Keys: []annChoice{{"auth-url", authURLs}, {"auth-external-placement", []string{"frontend"}}}},
+		{Name: "oauth", Keys: []annChoice{{"oauth", []string{"oauth2_proxy"}}}, Path: "/oauth2"},
+		{Name: "oauth-nopath", Keys: []annChoice{{"oauth", []string{"oauth2_proxy"}}}},
+		{Name: "tcp", Keys: []annChoice{{"tcp-service-port", []string{"7000", "7001"}}}, Root: true},
+		{Name: "passthrough", Keys: []annChoice{{"ssl-passthrough", []string{"true"}}}, Root: true},
+		{Name: "bluegreen", Keys: []annChoice{{"blue-green-deploy", []string{"group=blue=1,group=green=3"}}, {"blue-green-header", []string{"X-Server:group"}}}},
+		{Name: "server-id", Keys: []annChoice{{"assign-backend-server-id", []string{"true"}}, {"backend-server-naming", []string{"pod", "ip"}}}},
+	}
+	p.BundlePct = 55
+	return p
+}
+
+// genRichExtras adds objects the rich profile refers to (CA secret, pods, tcp ConfigMap).
+func (g *G) genRichExtras() {
+	for _, ns := range g.P.NS {
+		g.add(&world.Obj{Kind: world.KSecret, NS: ns, Name: "ca1", SecretKind: "ca", Cert: 0})
+		for _, ep := range g.W.OfKind(world.KEndpoints) {
+			if ep.NS != ns {
+				continue
+			}
+			for _, ss := range ep.Subsets {
+				for i, a := range append(append([]world.Addr{}, ss.Ready...), ss.NotReady...) {
+					if a.Pod == "" || g.W.Get(world.KPod, ns+"/"+a.Pod) != nil {
+						continue
+					}
+					lb := map[string]string{"app": ns + "-" + ep.Name}
+					if i%2 == 0 {
+						lb["group"] = "blue"
+					} else {
+						lb["group"] = "green"
+					}
+					g.add(&world.Obj{Kind: world.KPod, NS: ns, Name: a.Pod, Labels: lb, PodIP: a.IP, UID: "uid-" + ns + "-" + a.Pod, ContPorts: []world.SvcPort{{Name: "web", Port: 8443}}})
+				}
+			}
+		}
+	}
+	if g.chance("tcpcm", 30) {
+		g.add(&world.Obj{Kind: world.KConfigMap, NS: world.CtlNS, Name: "tcp-services", Data: map[string]string{
+			"7100": "a/s1:80", "7101": g.pick("tcpcmval", []string{"b/s2:8000", "a/s9:80", "a/s1:80::PROXY"}),
+		}})
+	}
 }
